@@ -145,14 +145,15 @@ def compile_path(path: str) -> Tuple[str, Dict[str, Convertor]]:
             raise ValueError(f"Unknown path convertor '{convertor_type}'")
         convertor = CONVERTOR_TYPES[convertor_type]
 
-        path_format += path[idx : match.start()]
+        # literal text goes into a str.format template: its braces are doubled
+        path_format += path[idx : match.start()].replace("{", "{{").replace("}", "}}")
         path_format += "{%s}" % param_name
 
         param_convertors[param_name] = convertor
 
         idx = match.end()
 
-    path_format += path[idx:]
+    path_format += path[idx:].replace("{", "{{").replace("}", "}}")
 
     return path_format, param_convertors
 
